@@ -1,8 +1,90 @@
 """C16 OPRF, DLEQ/Schnorr/Qn-DLEQ proofs, simplest OT.  spec/C16"""
 import json, os, random, copy
+from concurrent.futures import ThreadPoolExecutor
 from vlib import common as C
 
 LEVEL = "model_checking"
+
+
+def h2c_job(w, i, l):
+    d = os.path.join(w, "h2c%d" % i)
+    os.makedirs(d, exist_ok=True)
+    C.stage_specs(d, "C16")
+    r255 = l["curve"] == "R255"
+    module = "R255Job" if r255 else "H2CJob"
+    job = {"uniform": l["uniform"], "enc": l["x"]} if r255 else {k: l[k] for k in ("curve", "uniform", "x", "y", "identity")}
+    json.dump(job, open(os.path.join(d, "job.json"), "w"))
+    r = C.tlc(d, module, module + ".cfg", workers=1, heap="3g", timeout=3300, stack="256m")
+    vp = os.path.join(d, "verdict.json")
+    if not r.ok or not os.path.exists(vp):
+        raise C.Infra("%s failed:\n%s" % (module, r.tail(40)))
+    v = json.load(open(vp))
+    if not v["done"] or not v.get("sane", True):
+        raise C.Infra("%s did not reach the end / failed its own sanity conditions: %s\n%s" % (module, v, r.tail(20)))
+    return v, r.distinct
+
+
+def expander_jobs(w, i, jobs):
+    d = os.path.join(w, "xj%d" % i)
+    os.makedirs(d, exist_ok=True)
+    C.stage_specs(d, "C15")
+    json.dump(jobs, open(os.path.join(d, "jobs.json"), "w"))
+    r = C.tlc(d, "ExpanderJobs", "ExpanderJobs.cfg", workers=1, heap="3g", timeout=3300, stack="256m")
+    vp = os.path.join(d, "verdict.json")
+    if not r.ok or not os.path.exists(vp):
+        raise C.Infra("ExpanderJobs failed:\n%s" % r.tail(40))
+    v = json.load(open(vp))
+    if v["consumed"] != len(jobs):
+        raise C.Infra("ExpanderJobs consumed %d of %d jobs" % (v["consumed"], len(jobs)))
+    bad = v["bad"] if isinstance(v["bad"], list) else list(v["bad"].values())
+    return {int(x) - 1 for x in bad}, r.distinct
+
+
+def hash_to_curve(w, drv, thorough, rep):
+    """RFC 9380 hash_to_curve on P-256 / P-384 / P-521 recomputed by TLC: ExpanderJobs.tla for expand_message_xmd, H2CJob.tla for the rest."""
+    hp = os.path.join(w, "h2c.ndjson")
+    hl = C.read_ndjson(hp)
+    for l in hl:
+        if l["panics"]:
+            rep.violation("h2c:%s:%s:panic" % (l["curve"], l["class"]), {"observed": l, "explain": "HashToElement panicked"})
+    hl = [l for l in hl if not l["panics"]]
+    rnd = random.Random(C.SEED)
+    pick = []
+    for curve, nq in (("R255", 4), ("P256", 4), ("P384", 1), ("BLS12381G1", 1), ("P521", 0)):
+        ls = [l for l in hl if l["curve"] == curve]
+        fixed, rest = ls[:2], ls[2:]
+        rnd.shuffle(rest)
+        pick += ls if thorough else (fixed[1:2] + rest)[:nq]
+    anchor = [l for l in hl if l["curve"] == "P256" and l["class"] == "rfc9380-empty"][0]
+    if bytes(anchor["x"]).hex() != "2c15230b26dbc6fc9a37051158c95b79656e17a1a920b11394ca91c44247d3e4":
+        rep.violation("h2c:P256:rfc9380-empty", {"observed": anchor, "explain": "differs from the RFC 9380 appendix J.1.1 vector"})
+    fals = copy.deepcopy(anchor)
+    fals["y"][-1] ^= 1
+    xj = [{"kind": l["kind"], "k": 0, "dst": l["dst"], "msg": l["msg"], "n": l["n"], "want": l["uniform"]} for l in pick]
+    groups = [list(range(len(xj)))[i::8] for i in range(8)]
+    groups = [g for g in groups if g]
+    with ThreadPoolExecutor(min(C.NCPU, 14)) as ex:
+        fx = [ex.submit(expander_jobs, w, gi, [xj[i] for i in g]) for gi, g in enumerate(groups)]
+        ranchor = [l for l in hl if l["curve"] == "R255"][0]
+        rfals = copy.deepcopy(ranchor)
+        rfals["x"][3] ^= 4
+        fh = [ex.submit(h2c_job, w, i, l) for i, l in enumerate([anchor, fals] + pick + [ranchor, rfals])]
+        xres = [f.result() for f in fx]
+        hres = [f.result() for f in fh]
+    if not hres[0][0]["ok"] or hres[1][0]["ok"]:
+        raise C.Infra("H2CJob does not reproduce RFC 9380 J.1.1 / accepts a falsified point")
+    if hres[-1][0]["ok"]:
+        raise C.Infra("R255Job accepts a falsified encoding")
+    hres = hres[:-2]
+    for g, (bad, _) in zip(groups, xres):
+        for bi in bad:
+            l = pick[g[bi]]
+            rep.violation("h2c:%s:%s:expander" % (l["curve"], l["class"]), {"observed": l, "explain": "expand_message_xmd output differs from RFC 9380 5.3.1 recomputed by TLC"})
+    for l, (v, _) in zip(pick, hres[2:]):
+        if not v["ok"]:
+            rep.violation("h2c:%s:%s" % (l["curve"], l["class"]), {"observed": l, "tlc": {k: (bytes(x).hex() if isinstance(x, list) else x) for k, x in v.items()},
+                                                                 "explain": "HashToElement differs from RFC 9380 hash_to_curve recomputed by TLC (H2CJob.tla / R255Job.tla)"})
+    rep.add(h2c_calls=len(hl), h2c_tlc_recomputed=len(pick), h2c_curves=sorted({l["curve"] for l in pick}), h2c_states=sum(x[1] for x in hres) + sum(x[1] for x in xres))
 
 
 def run(tier, rep, replay=None):
@@ -13,7 +95,8 @@ def run(tier, rep, replay=None):
     r2 = C.tlc_must(C.tlc(w, "QnDleq", "Empty.cfg", timeout=900), "QnDleq (toy N=77: completeness; prover-chosen parameter accepts everything)")
     drv = C.go_build_driver(w, "c16")
     tp = os.path.join(w, "t.ndjson")
-    C.run([drv, "-out", tp, "-seed", str(C.SEED), "-reps", "20" if thorough else "2"], timeout=3300, what="c16 driver")
+    C.run([drv, "-out", tp, "-seed", str(C.SEED), "-reps", "20" if thorough else "2", "-h2c", os.path.join(w, "h2c.ndjson"), "-nh2c", "16" if thorough else "4"], timeout=3300, what="c16 driver")
+    hash_to_curve(w, drv, thorough, rep)
     lines = C.read_ndjson(tp)
     bad, r = C.validate_lines(w, "Trace_Proofs", "Lines.cfg", lines)
     for i in bad:
@@ -36,12 +119,12 @@ def run(tier, rep, replay=None):
             executions=sum(l["total"] for l in lines), objects=sorted({l["obj"] for l in lines}))
     for l in lines[:2] + [x for x in lines if x["ev"] == "proof"][:2] + [x for x in lines if x["ev"] == "ot"][:1]:
         rep.sample(l)
-    rep.assumptions += ["hash-to-group itself is anchored by the RFC 9497 vectors of the repository's tests; here: relations between client and server computations",
+    rep.assumptions += ["hash-to-group: TLC recomputes group.HashToElement of all four OPRF groups and bls12381.G1.Hash from RFC 9380 / RFC 9496 on a sample (ExpanderJobs.tla + H2CJob.tla / R255Job.tla; P-521 in thorough only); hashing to G2 is not recomputed",
                         "toy-group algebra (Q = 7 quick; 11 and 13 thorough) stands for the real groups' algebra"]
 
 
 MANIFEST = {
- "text": "Oprf.tla checks the algebra of OPRF/POPRF blinding, DLEQ and Schnorr completeness, DLEQ algebraic soundness (a false statement fits at most one challenge) and OT key agreement for ALL keys, blinds and inputs of a toy prime-order group; QnDleq.tla (N=77) shows completeness and that a verifier taking the security parameter from the proof accepts (Z, C=0, parameter 0) for every statement. The driver runs all four suites x three modes (derived and random keys, batches of 1-4, input lengths 0..65535, structured blinds 1 / order-1 / random, batch-of-one consistency, FullEvaluate and VerifyFinalize) and every alteration site (evaluated element changed / swapped / identity, proof c or s bit-flipped or zeroed, other key, other info, other blinded elements), DLEQ batch proofs, Schnorr proofs and Qn-DLEQ proofs with every statement / proof / context alteration and degenerate assembly (zero challenge, zero response, identity elements, prover-chosen parameter, proof made for another key), and both OT choice bits incl. decrypting the other ciphertext with the derived key; TLC judges the recorded outcomes against ProofVerdict.tla.",
+ "text": "H2CJob.tla is RFC 9380 hash_to_curve for P256_XMD:SHA-256_SSWU_RO_, P384_XMD:SHA-384_SSWU_RO_, P521_XMD:SHA-512_SSWU_RO_ and BLS12381G1_XMD:SHA-256_SSWU_RO_ (the latter with the 11-isogeny evaluated by Horner's rule, projective addition / doubling on y^2 = x^3 + 4 and multiplication by h_eff one action per bit; hash_to_field reduction, simplified SWU with inv0 and square root as exponentiations one action per bit, sgn0, affine point addition; Barrett arithmetic on base-4096 digits, constants checked by ASSUME) with which - together with ExpanderJobs.tla for expand_message_xmd - TLC recomputes group.HashToElement (the HashToGroup of the RFC 9497 suites) and bls12381.G1.Hash (the message hash of BLS signatures in G1) for sampled messages and domain-separation tags incl. over-long and empty tags, after reproducing RFC 9380 J.1.1 and refusing a falsified point; R255Job.tla is hash_to_ristretto255 (RFC 9380 appendix B: the one-way map of RFC 9496 4.3.4 with SQRT_RATIO_M1 on both halves, complete addition, the encoding of 4.3.2; constants checked against their defining equations). Oprf.tla checks the algebra of OPRF/POPRF blinding, DLEQ and Schnorr completeness, DLEQ algebraic soundness (a false statement fits at most one challenge) and OT key agreement for ALL keys, blinds and inputs of a toy prime-order group; QnDleq.tla (N=77) shows completeness and that a verifier taking the security parameter from the proof accepts (Z, C=0, parameter 0) for every statement. The driver runs all four suites x three modes (derived and random keys, batches of 1-4, input lengths 0..65535, structured blinds 1 / order-1 / random, batch-of-one consistency, FullEvaluate and VerifyFinalize) and every alteration site (evaluated element changed / swapped / identity, proof c or s bit-flipped or zeroed, other key, other info, other blinded elements), DLEQ batch proofs, Schnorr proofs and Qn-DLEQ proofs with every statement / proof / context alteration and degenerate assembly (zero challenge, zero response, identity elements, prover-chosen parameter, proof made for another key), and both OT choice bits incl. decrypting the other ciphertext with the derived key; TLC judges the recorded outcomes against ProofVerdict.tla.",
  "note": "Seeded random keys / inputs (2 repetitions per suite and mode in quick, 20 in thorough).",
  "technique": "TLC exhaustive check of protocol algebra on toy groups + alteration-site scenarios replayed on real code + TLC judgement of recorded outcomes",
 }
